@@ -121,12 +121,17 @@ Definition step_tick (s : state) (us : Z) : state * list wire :=
 (* ------------------------------------------------------------------ token manager and rendering tasks *)
 Definition step_out := (list wire * list logrec * Z)%type.   (* datagrams, log records, exceptions raised back into tasks *)
 
+(* TokenManager.process_request.on_event (tokenmanager.py:139-143): the request's No-Response option is filled into
+   every response that has none, whoever produced it *)
+Definition tm_fill (r : request) (m : msg) : msg :=
+  {| m_code := m_code m; m_payload := m_payload m; m_cf := m_cf m;
+     m_nr := match m_nr m with Some n => Some n | None => r_nr r end |}.
 (* effects of what the pipes did: every Send is a token_interface.send_message(m, stop) *)
 Fixpoint perform (s : state) (r : request) (acts : list action) : state * list wire * list logrec :=
   match acts with
   | [] => (s, [], [])
   | Send m _ :: rest =>
-      let '(s1, w) := send_message s r m in
+      let '(s1, w) := send_message s r (tm_fill r m) in
       let '(s2, w2, l2) := perform s1 r rest in (s2, w ++ w2, l2)
   | Log l :: rest => let '(s2, w2, l2) := perform s r rest in (s2, w2, l :: l2)
   end.
